@@ -1,3 +1,47 @@
-import PGM.Model.Loss
+import PGM.Proofs.LossSem
+/-!
+# C04 — the optimised objective, its gradient and smoothness bound are the stated ones
+
+Theorems about `PGM/Model/Loss.lean` (transcription of `inference.py`'s `_setup` grouping,
+`_marginal_loss`, `_lipschitz`), over any linearly ordered field.
+-/
 namespace PGM.C04
+open PGM PGM.JT PGM.Loss
+variable {K : Type} [Field K] [LinearOrder K] [IsStrictOrderedRing K]
+
+/-- every measurement whose projection fits some clique is charged to exactly one clique -/
+theorem groupOf_spec (d : Dom) (cliques : List Clique) (proj : List Attr) :
+    (∀ c, groupOf d cliques proj = some c → c ∈ cliques ∧ JT.subset proj c = true) ∧
+    ((∃ c ∈ cliques, JT.subset proj c = true) → ∃ c, groupOf d cliques proj = some c) :=
+  Loss.groupOf_spec d cliques proj
+
+/-- **each measurement is counted exactly once**, however the cliques overlap or repeat -/
+theorem loss_each_once (d : Dom) (cliques : List Clique) (meas : List (Meas (PlainOf K)))
+    (mu : CliqueVec (PlainOf K)) (hmu : VecOK d cliques mu) (hm : ∀ m ∈ meas, MeasOK d m)
+    (hcov : ∀ m ∈ meas, ∃ c ∈ cliques, JT.subset m.proj c = true) :
+    (marginalLoss d cliques meas mu).1.v
+      = (meas.map (fun m => lossM m (mu.get ((groupOf d cliques m.proj).getD [])))).sum :=
+  Loss.loss_each_once d cliques meas mu hmu hm hcov
+
+/-- **exact second-order expansion** — the returned gradient is *the* derivative of the loss -/
+theorem loss_expansion (d : Dom) (cliques : List Clique) (meas : List (Meas (PlainOf K)))
+    (mu h : CliqueVec (PlainOf K)) (hmu : VecOK d cliques mu) (hh : VecOK d cliques h)
+    (hm : ∀ m ∈ meas, MeasOK d m) (hcov : ∀ m ∈ meas, ∃ c ∈ cliques, JT.subset m.proj c = true) :
+    (marginalLoss d cliques meas (cvAdd mu h)).1.v
+      = (marginalLoss d cliques meas mu).1.v + cvDot (marginalLoss d cliques meas mu).2 h
+        + (meas.map (fun m => quadM m (h.get ((groupOf d cliques m.proj).getD [])))).sum :=
+  Loss.loss_expansion d cliques meas mu h hmu hh hm hcov
+
+/-- **smoothness bound**: the constant returned by `_lipschitz` dominates the Hessian's quadratic
+form (given the `eigsh` contract for each query matrix) -/
+theorem hessian_bound (d : Dom) (cliques : List Clique) (meas : List (Meas (PlainOf K)))
+    (eigs : List (PlainOf K)) (h : CliqueVec (PlainOf K)) (hh : VecOK d cliques h)
+    (hm : ∀ m ∈ meas, MeasOK d m) (hcov : ∀ m ∈ meas, ∃ c ∈ cliques, JT.subset m.proj c = true)
+    (hlen : eigs.length = meas.length) (hsizes : ∀ p ∈ d, 0 < p.2) (hne : cliques ≠ [])
+    (heig : ∀ i (hi : i < meas.length) (x : List K), x.length = d.sizeOf (meas[i]).proj →
+      vdot (qx meas[i] x) (qx meas[i] x) ≤ (eigs.getD i ⟨0⟩).v * vdot x x) :
+    (meas.map (fun m => quadM m (h.get ((groupOf d cliques m.proj).getD [])))).sum
+      ≤ (1 / 2) * (lipschitz d cliques meas eigs).v * cvNormSq h :=
+  Loss.hessian_bound d cliques meas eigs h hh hm hcov hlen hsizes hne heig
+
 end PGM.C04
